@@ -35,11 +35,13 @@ func runC15(tier string) int {
 	r := harness.NewRun("C15", "exploration", tier, budget(tier, 50*time.Second, 10*time.Minute))
 	generated := regexp.MustCompile(`^(S|S2|Map_ON_LOAD|Map_ON_FRAME_1|Map_ON_TRANSITION)_(\d+|Text_\d+|Movement_\d+)$`)
 	// 5 statement kinds x 3 modifiers, 3 label modifiers, 2 statement orders, optimize on/off
-	total := uint64(243 * 3 * 2 * 2 * len(c15NameSets))
+	total := uint64(243 * 3 * 2 * 2 * len(c15NameSets) * 2)
 	r.Parallel(total, func(w int, idx uint64) {
 		x := int(idx)
 		ns := c15NameSets[x%len(c15NameSets)]
 		x /= len(c15NameSets)
+		pv := []string{"A", "Z"}[x%2] // which alternative of the poryswitches in script S is compiled
+		x /= 2
 		opt := x%2 == 0
 		x /= 2
 		order := x % 2
@@ -52,7 +54,7 @@ func runC15(tier string) int {
 			x /= 3
 		}
 		pieces := []string{
-			"script" + m[0] + " S {\n\tL1" + lm + ":\n\tif (flag(A)) {\n\t\tmsgbox(\"hi\")\n\t}\n\twhile (var(V) < 2) {\n\t\tapplymovement(1, moves(u d))\n\t\tL2:\n\t}\n\tswitch (var(W)) {\n\t\tcase 1:\n\t\t\tx\n\t\tdefault:\n\t\t\ty\n\t}\n}\n",
+			"script" + m[0] + " S {\n\tL1" + lm + ":\n\tporyswitch(PV) {\n\t\tA {\n\t\t\tPL(global):\n\t\t\tPM:\n\t\t}\n\t\t_ {\n\t\t\tPL:\n\t\t\tPM(global):\n\t\t}\n\t}\n\tif (flag(A)) {\n\t\tmsgbox(\"hi\")\n\t}\n\twhile (var(V) < 2) {\n\t\tapplymovement(1, moves(u d))\n\t\tL2:\n\t}\n\tswitch (var(W)) {\n\t\tcase 1:\n\t\t\tx\n\t\tdefault:\n\t\t\ty\n\t}\n}\n",
 			"text" + m[1] + " " + ns[0] + " {\n\t\"hello\"\n}\n",
 			"movement" + m[2] + " " + ns[1] + " {\n\tu\n\td\n}\n",
 			"mart" + m[3] + " " + ns[2] + " {\n\tI1\n}\n",
@@ -63,7 +65,7 @@ func runC15(tier string) int {
 			pieces = []string{pieces[5], pieces[4], pieces[3], pieces[2], pieces[1], pieces[0]}
 		}
 		src := strings.Join(pieces, "\n")
-		res := comp.Compile(src, comp.Opts{Optimize: opt})
+		res := comp.Compile(src, comp.Opts{Optimize: opt, Switches: map[string]string{"PV": pv}})
 		r.Add("evaluations", 1)
 		explicit := lm != ""
 		for _, mm := range m {
@@ -78,7 +80,7 @@ func runC15(tier string) int {
 		}
 		want := map[string]bool{ // name -> exported?
 			"S": c15Global(m[0], true), ns[0]: c15Global(m[1], true), ns[1]: c15Global(m[2], false), ns[2]: c15Global(m[3], false), "Map": c15Global(m[4], true),
-			"L1": c15Global(lm, false), "L2": false, "L3": c15Global(lm, false), "S2": true,
+			"PL": pv == "A", "PM": pv != "A", "L1": c15Global(lm, false), "L2": false, "L3": c15Global(lm, false), "S2": true,
 			"Map_ON_LOAD": false, "Map_ON_FRAME": false, "Map_ON_FRAME_1": false, "Map_ON_TRANSITION": false,
 		}
 		mustHaveGenerated := map[string]bool{"S_Text_0": false, "S_Movement_0": false, "Map_ON_LOAD_Text_0": false, "Map_ON_FRAME_1_Text_0": false, "Map_ON_TRANSITION_Movement_0": false, "S2_Text_0": false}
@@ -87,7 +89,9 @@ func runC15(tier string) int {
 		fail := func(what string) {
 			s2 := src
 			r.Report(harness.Violation{Sig: "C15:" + firstWords(what, 3), Summary: fmt.Sprintf("%s\n  modifiers script/text/movement/mart/mapscripts=%q label=%q optimize=%v", what, m, lm, opt), Replay: map[string]interface{}{"source": src, "optimize": opt, "problem": what, "output": res.Out},
-				Recheck: func() bool { return comp.Compile(s2, comp.Opts{Optimize: opt}).Out == res.Out }})
+				Recheck: func() bool {
+					return comp.Compile(s2, comp.Opts{Optimize: opt, Switches: map[string]string{"PV": pv}}).Out == res.Out
+				}})
 		}
 		for _, l := range asmLines(res.Out) {
 			if !l.isLabel {
@@ -172,5 +176,5 @@ func runC15(tier string) int {
 	})
 	r.Assume("documented defaults: script, text, mapscripts global; movement, mart local; labels inside scripts local; every generated label local")
 	return r.Finish(r.Get("evaluations"), r.Get("nontrivial"),
-		"the full finite product {script, text, movement, mart, mapscripts} x {no modifier, (global), (local)} (3^5) x in-script label modifier (3) x 2 statement orders x optimize on/off x 3 sets of names for the explicit data statements (plain, and shaped like generated hoisted / sub-label / map-script names of scripts that do not exist); the file forces every generated label kind (sub-labels of if/while/switch, hoisted text and movement, inline map script, table, table inline script and their hoisted data); every label definition of the output is classified by the naming scheme and must have the expected scope; plus every program of the control-flow families (C01 / C03 / C04 bounds) x script modifier x optimize: script label per modifier, every other label local; non-trivial = at least one explicit modifier")
+		"the full finite product {script, text, movement, mart, mapscripts} x {no modifier, (global), (local)} (3^5) x in-script label modifier (3) x 2 statement orders x optimize on/off x which alternative of two poryswitches (the same label name with different modifiers in the two cases) is compiled x 3 sets of names for the explicit data statements (plain, and shaped like generated hoisted / sub-label / map-script names of scripts that do not exist); the file forces every generated label kind (sub-labels of if/while/switch, hoisted text and movement, inline map script, table, table inline script and their hoisted data); every label definition of the output is classified by the naming scheme and must have the expected scope; plus every program of the control-flow families (C01 / C03 / C04 bounds) x script modifier x optimize: script label per modifier, every other label local; non-trivial = at least one explicit modifier")
 }
